@@ -357,10 +357,21 @@ func compensated(fn *ssa.Function, call ssa.CallInstruction, effs []Effect) bool
 		return false
 	}
 	before := map[string]bool{}
+	type helperPush struct {
+		at  ssa.Instruction
+		loc string
+	}
+	var helperPushes []helperPush // c.push(entry) before the call: stands for the append it contains
 	for _, e := range effs {
 		st, ok := e.Instr.(*ssa.Store)
 		if !ok {
 			if ir.InstrReaches(e.Instr, call) && e.Instr != ssa.Instruction(call) {
+				if _, _, _, kind, _ := pathHelperStore(e.Instr); kind == "push" {
+					loc := locKey(pathHelperLoc(e.Instr))
+					before[loc] = true
+					helperPushes = append(helperPushes, helperPush{e.Instr, loc})
+					continue
+				}
 				return false // a callee changed state: cannot see what to undo
 			}
 			continue
@@ -420,6 +431,11 @@ func compensated(fn *ssa.Function, call ssa.CallInstruction, effs []Effect) bool
 	postState := func(i ssa.Instruction) bool {
 		for _, e := range effStores {
 			if ir.InstrReaches(e, i) {
+				return true
+			}
+		}
+		for _, hp := range helperPushes {
+			if ir.InstrReaches(hp.at, i) {
 				return true
 			}
 		}
@@ -619,6 +635,19 @@ func compensated(fn *ssa.Function, call ssa.CallInstruction, effs []Effect) bool
 					}
 				}
 			}
+			// the same for a list appended to through a helper
+			for _, hp := range helperPushes {
+				if hp.loc != self {
+					continue
+				}
+				sl, isSl := st.Val.(*ssa.Slice)
+				if !isSl || sl.High == nil || (sl.Low != nil && nf(sl.Low, 0) != nform{"", 0}) {
+					return false
+				}
+				if nf(sl.High, 0) != (nform{"LEN0:" + self, 0}) {
+					return false
+				}
+			}
 		}
 	}
 	return true
@@ -660,12 +689,18 @@ func navExceptionHolds(fn *ssa.Function, call ssa.CallInstruction) bool {
 							return false
 						}
 					}
+					if _, _, _, kind, _ := pathHelperStore(ins); kind != "" {
+						return false // the same cut or push, written as a helper call
+					}
 				}
 			}
 		}
 	}
 	var pops []ssa.Instruction
 	isPush := func(i ssa.Instruction) bool {
+		if _, _, _, kind, must := pathHelperStore(i); kind == "push" && must {
+			return true
+		}
 		st, ok := i.(*ssa.Store)
 		if !ok || !isCursorPath(st.Addr) {
 			return false
@@ -679,6 +714,10 @@ func navExceptionHolds(fn *ssa.Function, call ssa.CallInstruction) bool {
 	}
 	for _, b := range fn.Blocks {
 		for _, ins := range b.Instrs {
+			if _, _, _, kind, _ := pathHelperStore(ins); kind == "cut" {
+				pops = append(pops, ins)
+				continue
+			}
 			st, ok := ins.(*ssa.Store)
 			if !ok || !isCursorPath(st.Addr) {
 				continue
